@@ -44,18 +44,29 @@ impl InputColumn {
                 }
             }
             ColumnData::String(data) => {
-                assert!(
-                    (data.len() as u64) == rows,
-                    "rows: {}, data.len(): {}",
-                    rows,
-                    data.len()
-                );
-                InputColumn::Str(data)
+                if (data.len() as u64) < rows {
+                    // rows after the last value are NULL, as for the numeric columns
+                    let missing = rows as usize - data.len();
+                    InputColumn::Mixed(
+                        data.into_iter()
+                            .map(Value::Str)
+                            .chain(std::iter::repeat(Value::Null).take(missing))
+                            .collect(),
+                    )
+                } else {
+                    InputColumn::Str(data)
+                }
             }
             ColumnData::Empty => InputColumn::Null(rows as usize),
             ColumnData::SparseI64(data) => InputColumn::NullableInt(rows, data),
             ColumnData::Mixed(data) => {
-                InputColumn::Mixed(data.into_iter().map(|v| v.into()).collect())
+                let missing = (rows as usize).saturating_sub(data.len());
+                InputColumn::Mixed(
+                    data.into_iter()
+                        .map(|v| v.into())
+                        .chain(std::iter::repeat(Value::Null).take(missing))
+                        .collect(),
+                )
             }
         }
     }
